@@ -332,6 +332,37 @@ pub fn float_pixel(seed: u64, mode: u64, i: u64) -> [u32; 3] {
         bits = bits.wrapping_add(((r >> 40) % 5) as u32).wrapping_sub(2);
         return [bits, bits, bits];
     }
+    if mode == 9 {
+        // near-duplicates: runs as in mode 6, drawn from ordinary colours, in which a pixel
+        // now and then differs from its predecessor by one to three units in the last place
+        // of one channel (or is 1.0 next to its predecessor, or a subnormal next to zero).
+        // Equal for every tolerance-based comparison, different bit patterns: what a cache
+        // keyed on "approximately the same colour as the previous pixel" gets wrong
+        let mut start = i;
+        while start > 0 && mix(seed, 0x7100 + start) % 4 != 0 {
+            start -= 1;
+        }
+        let base = mix(seed, 0x8100 + start);
+        let mut px = match base % 5 {
+            0 => [0u32, 0, 0],
+            1 => [0x3f80_0000, 0x3f80_0000, 0x3f80_0000],
+            2 => [0x3f00_0000, 0x3f00_0000, 0x3f00_0000],
+            _ => {
+                let c = |k: u64| ((mix(seed, 0x8200 + start * 3 + k) >> 40) as f32 / (1u64 << 24) as f32).to_bits();
+                [c(0), c(1), c(2)]
+            }
+        };
+        if i != start {
+            let j = mix(seed, 0x9100 + i);
+            if j % 3 != 0 {
+                let c = (j >> 8) as usize % 3;
+                let d = 1 + (j >> 16) as u32 % 3;
+                // move within the positive floats (0 -> subnormal, 1.0 -> just below / above)
+                px[c] = if (j >> 24) % 2 == 0 || px[c] < d { px[c].wrapping_add(d) } else { px[c] - d };
+            }
+        }
+        return px;
+    }
     if mode == 6 {
         // runs: pixel i belongs to the run that started at the last index whose "start" bit is
         // set; inside a run every pixel is the run's palette entry, with the sign of its zeros
